@@ -521,7 +521,13 @@ func (e *Engine) applyContract(fr *Frame, st *State, c *Contract, fn *ssa.Functi
 		if cl.Kind != "ensures" {
 			continue
 		}
+		// GvcFresh in a callee's post-condition means "allocated by this call": at the call site
+		// that is "not older than the clock before the call" (the callee proved it against its own
+		// entry clock), which also separates the object from everything the caller already holds
+		prevSince := e.freshSince
+		e.freshSince = pre.time().S
 		g := e.evalSpec(fr, e.clauseFunc(c, cl), full, st, pre)
+		e.freshSince = prevSince
 		e.assume(st, g)
 	}
 	return packResults(sig, results)
